@@ -31,9 +31,11 @@ LISTED = {
 }
 
 
-def load_functions(repo, scratch):
+def load_functions(repo, scratch, raw=False):
     text = M.dump_mir(repo, scratch)
     fns = M.parse_mir(text)
+    if raw:
+        return fns, text
     out = {}
     for key, (file, method, p0, n) in LISTED.items():
         out[key] = M.find_fn(fns, file, method, p0, n)
@@ -391,9 +393,22 @@ def run(prop, ctx, log):
     os.makedirs(scratch, exist_ok=True)
     t0 = time.time()
     try:
-        fns = load_functions(os.environ.get("VERIF_REPO", "/repo"), scratch)
         thorough = ctx["tier"] == "thorough"
         M.TLIMIT = 900 if thorough else 120
+        if prop == "C03":
+            import seqfold
+            repo = os.environ.get("VERIF_REPO", "/repo")
+            fl, text = load_functions(repo, scratch, raw=True)
+            out, ex, paths, props = seqfold.c03_queries(repo, fl, text, 3, log, native, result)
+            out += seqfold.validate(ex, paths, props, 3, log, native)
+            if thorough:
+                out += seqfold.c03_queries(repo, fl, text, 8, log, native, result)[0]
+            return out
+        if prop in ("C01", "C02"):
+            import shards
+            fl, text = load_functions(os.environ.get("VERIF_REPO", "/repo"), scratch, raw=True)
+            return shards.shard_queries(fl, log, native, result)
+        fns = load_functions(os.environ.get("VERIF_REPO", "/repo"), scratch)
         out = []
         if prop == "C18":
             out += c18_queries(fns, 2, log)
